@@ -90,6 +90,14 @@ class BadEq:
 
 class IntKey:
     pass
+
+class Acct:
+    def __init__(self, owner):
+        self.__owner = owner
+
+class Sess:
+    def __init__(self, owner):
+        self.__owner = owner
 '''
 PRELUDE_LINES = PRELUDE.count("\n")
 
@@ -355,7 +363,7 @@ def gen_local_stmts(r, n=None, offenders=False, big=False, sharing=False, cycles
     if big:
         recipes += ["biglist", "widedict", "deep", "longstr", "tree", "bigset", "objchain", "bigtuple"]
     if sharing:
-        recipes += ["shared", "alias", "sharedobj"]
+        recipes += ["shared", "alias", "sharedobj", "twinpriv"]
     if cycles:
         recipes += ["cyclist", "cycdict", "cycobj", "locals", "mutual"]
     if offenders:
@@ -403,6 +411,11 @@ def gen_local_stmts(r, n=None, offenders=False, big=False, sharing=False, cycles
             lines.append("%s_o = P(1, 2)" % v)
             names.append(v + "_o")
             lines.append("%s = {'a': %s_o, 'b': [%s_o], 'c': (%s_o,)}" % (v, v, v, v))
+        elif k == "twinpriv":
+            # two classes, a private attribute of the same name in each, both referring to ONE object
+            lines.append("%s_w = %s" % (v, r.choice(("'owner'", "['o']", "None", "P(1, 2)"))))
+            names.append(v + "_w")
+            lines.append("%s = [Acct(%s_w), Sess(%s_w)]" % (v, v, v))
         elif k == "cyclist":
             lines.append("%s = [1, 2]" % v)
             lines.append("%s.append(%s)" % (v, v))
@@ -457,9 +470,15 @@ def gen_value_program(r, name, local_lines, watches_scope=None, nthreads_hint=1,
     p.emit(2, "hold = ('h', 1)", "run", "assign", ["self", "ctx", "out"])
     p.emit(2, "return mid(ctx, out)", "run", "call", ["self", "ctx", "out", "hold"])
     p.emit(0, "")
+    # an inherited (not overridden) method runs with self of different classes: the frame's class is the class of the
+    # self in THAT frame
+    p.emit(0, "class SubHolder(Holder):")
+    p.emit(1, "pass")
+    p.emit(0, "")
     p.emit(0, "def tmain(tid, n, out):", "tmain", "def")
     p.emit(1, "ctx = {'c': tid * 1000}", "tmain", "assign", ["tid", "n", "out"])
     p.emit(1, "for rep in range(n):", "tmain", "loop", ["tid", "n", "out", "ctx"])
-    p.emit(2, "out.append(('res', Holder().run(ctx, out)))", "tmain", "call", ["tid", "n", "out", "ctx", "rep"])
+    p.emit(2, "holder = SubHolder() if (rep + tid) % 2 else Holder()", "tmain", "assign", ["tid", "n", "out", "ctx", "rep"])
+    p.emit(2, "out.append(('res', holder.run(ctx, out)))", "tmain", "call", ["tid", "n", "out", "ctx", "rep", "holder"])
     p.emit(0, "")
     return p.finish()
